@@ -65,17 +65,21 @@ type Op struct {
 	Anon bool   // render as bare selection set (only valid for an unnamed query without variables)
 	Vars []VarDef
 	Sels []*Sel
+	Dirs []Dir // directive uses on the operation (a named or keyword operation only)
 }
 
 type Frag struct {
 	Name string
 	Cond string
 	Sels []*Sel
+	Dirs []Dir // directive uses on the definition itself
 }
 
 type Doc struct {
 	Ops   []*Op
 	Frags []*Frag
+	// FragsFirst renders the fragment definitions before the operations (each spread then meets a definition already read)
+	FragsFirst bool
 }
 
 func (d *Doc) Frag(name string) *Frag {
@@ -108,15 +112,17 @@ func Q(sels ...*Sel) *Doc { return &Doc{Ops: []*Op{{Type: "query", Anon: true, S
 
 // Clone deep-copies a document.
 func (d *Doc) Clone() *Doc {
-	nd := &Doc{}
+	nd := &Doc{FragsFirst: d.FragsFirst}
 	for _, o := range d.Ops {
 		no := *o
+		no.Dirs = append([]Dir{}, o.Dirs...)
 		no.Vars = append([]VarDef{}, o.Vars...)
 		no.Sels = cloneSels(o.Sels)
 		nd.Ops = append(nd.Ops, &no)
 	}
 	for _, f := range d.Frags {
 		nf := *f
+		nf.Dirs = append([]Dir{}, f.Dirs...)
 		nf.Sels = cloneSels(f.Sels)
 		nd.Frags = append(nd.Frags, &nf)
 	}
@@ -356,6 +362,14 @@ func (r *renderer) sel(s *Sel) {
 // Render renders the document in the given layout and records selection positions.
 func (d *Doc) Render(layout Layout) string {
 	r := &renderer{layout: layout, line: 1, col: 1}
+	if d.FragsFirst {
+		for _, f := range d.Frags {
+			r.w("fragment " + f.Name + " on " + f.Cond)
+			r.dirs(f.Dirs)
+			r.selset(f.Sels)
+			r.w("\n")
+		}
+	}
 	for i, o := range d.Ops {
 		if i > 0 {
 			r.w("\n")
@@ -378,12 +392,16 @@ func (d *Doc) Render(layout Layout) string {
 				}
 				r.w(")")
 			}
+			r.dirs(o.Dirs)
 		}
 		r.selset(o.Sels)
 	}
-	for _, f := range d.Frags {
-		r.w("\nfragment " + f.Name + " on " + f.Cond)
-		r.selset(f.Sels)
+	if !d.FragsFirst {
+		for _, f := range d.Frags {
+			r.w("\nfragment " + f.Name + " on " + f.Cond)
+			r.dirs(f.Dirs)
+			r.selset(f.Sels)
+		}
 	}
 	return r.b.String()
 }
